@@ -217,6 +217,20 @@ pub fn pinned(prop: &str) -> Vec<SProg> {
             v.push(sp(vec![vec![Join(1)], vec![Read, FailInAtomicMut(1), RwUnlock]]));
             v.push(SProg { threads: vec![vec![Lock(0), Lock(1), Unlock(1), Unlock(0)], vec![Lock(1), Lock(0), Unlock(0), Unlock(1)]], loom_arc: true, forget_rx: false, rx_owner: 0 });
             v.push(SProg { threads: vec![vec![Send(1), Park], vec![Write, Park, RwUnlock]], loom_arc: true, forget_rx: false, rx_owner: 0 });
+            // a destructor that runs during the unwind has to wait for a lock another thread holds
+            v.push(sp(vec![vec![FailDropLock(0, 0)], vec![Lock(0), AStore(0, 1), Unlock(0)]]));
+            // ... the assertion fails only once the other thread is inside its critical section
+            // (the value 1 is visible only while the holder is between its two stores)
+            v.push(sp(vec![vec![ALoad(0), SkipUnlessLast(1, 1), FailDropLock(0, 0), Join(1)], vec![Lock(0), AStore(0, 1), AStore(0, 2), Unlock(0)]]));
+            v.push(sp(vec![vec![Join(1), Join(2)], vec![ALoad(0), SkipUnlessLast(1, 1), FailDropLock(1, 0)], vec![Lock(0), AStore(0, 1), AStore(0, 2), Unlock(0)]]));
+            v.push(sp(vec![vec![ALoad(0), FailDropLock(0, 0), Join(1)], vec![Lock(0), AStore(0, 1), Unlock(0)]]));
+            v.push(sp(vec![vec![Join(1)], vec![Lock(1), FailDropLock(1, 0), Unlock(1)], vec![Lock(0), Lock(1), Unlock(1), Unlock(0)]]));
+            // the failure strikes while threads have live thread-locals whose destructors perform loom operations
+            v.push(sp(vec![vec![Tls, Fail(0)]]));
+            v.push(sp(vec![vec![Tls, Fail(0)], vec![Tls, ALoad(0)]]));
+            v.push(sp(vec![vec![Tls, Join(1)], vec![Tls, Lock(0), Fail(1), Unlock(0)]]));
+            v.push(sp(vec![vec![Tls, Recv], vec![Tls, Fail(1)]]));
+            v.push(sp(vec![vec![Tls, Join(1), Join(2)], vec![Tls, ALoad(0)], vec![AStore(0, 1), Tls]]));
             // branch-limit crash points (max_branches = longest path - 1): the limit is hit by main while the other
             // thread can still run, and main's unwind drops a loom::sync::Arc (a scheduling point in a destructor)
             for loom_arc in [true, false] {
@@ -257,7 +271,7 @@ fn kinds_for(prop: &str) -> (&'static str, GenOpts) {
         "C01" => ("lltRWTpujsrcnaawfi", GenOpts::default()),
         "C04" => ("CCCCllRWpuujsrcnwfgg", GenOpts { cells: true, ..Default::default() }),
         "C05" => ("lllRWpuujsrcnwf", GenOpts { loom_arc_pct: 15, ..Default::default() }),
-        "C06" => ("FFFlltRWpujsrcnawfC", GenOpts { fails: true, cells: true, loom_arc_pct: 15, ..Default::default() }),
+        "C06" => ("FFFlltRWpujsrcnawfCT", GenOpts { fails: true, cells: true, loom_arc_pct: 15, ..Default::default() }),
         "C07" => ("llltttRRWWTTiiCa", GenOpts { cells: true, ..Default::default() }),
         "C08" => ("llccnnnppuuujwwffCgg", GenOpts { cells: true, ..Default::default() }),
         "C09" => ("ssssrrrrCa", GenOpts { cells: true, forget_rx_pct: 10, ..Default::default() }),
